@@ -51,6 +51,7 @@ def gen_func(rng, depth, counter, paths):
          'args': [gen_container(rng) if rng.random() < 0.7 else gen_val(rng) for _ in range(rng.randint(0, 2))],
          'kwargs': {k: gen_container(rng) for k in rng.sample(['p', 'q'], rng.randint(0, 2))},
          'ret': gen_container(rng) if rng.random() < 0.8 else gen_val(rng),
+         'ret_arg': rng.random() < 0.25,      # the function hands back one of the arguments it received
          'body': []}
     if kind == 'bf':
         f['path'] = 'out/%s.txt' % f['name']
@@ -258,11 +259,20 @@ def run_build(FB, cache, root_dir, case, build_index):
             if f['kind'] == 'bf':
                 with open(fn, 'w') as fh:
                     fh.write(f['name'])
-            rv = realrun_copy(f['ret'])
-            r = tr.mk(rv)
-            state['ret_obj'] = rv
-            # the edge "return value in": recorded, and a copy goes to the caller
-            tr.cmds.append(['ret', r, []])
+            own = [i for i, x in enumerate(a) if isinstance(x, (list, dict)) and id(x) in tr.reg] if f.get('ret_arg') else []
+            if own:
+                # the function returns an object it was handed (and keeps it): the structure at (handed, [0, i])
+                i = own[0]
+                rv = a[i]
+                state['ret_obj'] = rv
+                tr.count('ret_own_argument')
+                tr.cmds.append(['ret', handed, [0, i]])
+            else:
+                rv = realrun_copy(f['ret'])
+                r = tr.mk(rv)
+                state['ret_obj'] = rv
+                # the edge "return value in": recorded, and a copy goes to the caller
+                tr.cmds.append(['ret', r, []])
             state['handed_ret'] = tr.nroots
             tr.nroots += 1
             tr.count('ret_in')
